@@ -115,6 +115,12 @@ func c16Family(j *Job) []xferCase {
 			cases = append(cases, xferCase{Name: fmt.Sprintf("KILL2.%d/%s", ki, mode.Name), K: 0, Spec: s2})
 		}
 	}
+	// a window of several thousand TSNs behind one lost chunk (receive-side bitmap words far
+	// apart): the shifted runs put the lost TSN right below the wrap
+	for _, c := range famZ4([]uint32{1048576}, []int{4200}) {
+		c.Name = "WIN/" + c.Name
+		cases = append(cases, c)
+	}
 	return cases
 }
 
@@ -198,7 +204,10 @@ func c16EndToEnd(j *Job) {
 			continue
 		}
 		run(ref, c.K, true, "ref")
-		for _, sh := range shifts {
+		for si, sh := range shifts {
+			if strings.HasPrefix(c.Name, "WIN/") && si%16 != 0 {
+				continue // heavy case: every 16th offset only
+			}
 			run(sh, 0, false, fmt.Sprintf("tsnA=2^32-%d", uint32(0)-sh.tsnA))
 		}
 		for i, sh := range faulty {
